@@ -108,7 +108,8 @@ class LeafNode(TreeNode):
 
     def __eq__(self, other):
         if isinstance(other, LeafNode):
-            return self.object == other.object
+            # Python's bool is an int subclass (True == 1, False == 0), but a boolean is not a number as data
+            return isinstance(self.object, bool) == isinstance(other.object, bool) and self.object == other.object
         else:
             return self.object == other
 
